@@ -58,7 +58,7 @@ def run(ctx):
     quick = ctx.tier == "quick"
     rnd = random.Random(ctx.seed)
     full = ",".join(str(k) for k in range(1, 4 * NV + 1))
-    plans = [(",".join(map(str, core(rnd))), 5 if quick else 6) for _ in range(1 if quick else 3)]
+    plans = [(",".join(map(str, core(rnd))), 5 if quick else 6) for _ in range(1 if quick else 6)]
     plans.append((full, 2 if quick else 3))
     n = 0
     for cs, maxlen in plans:
@@ -82,7 +82,7 @@ def run(ctx):
                        {"reexec": ["replay-rewrites"], "input": alpha + [m["case"]]}, {"cause": m["cause"]})
     # ---- code -> spec ----
     trace = os.path.join(ctx.work, "rw-trace.ndjson")
-    d = ctx.vh(["drive-rewrites", "n=%d" % (6000 if quick else 100000), "out=" + trace])
+    d = ctx.vh(["drive-rewrites", "n=%d" % (6000 if quick else 400000), "out=" + trace])
     nev, rejects = ctx.validate_trace("Trace_Rewrites", trace, procs=(2 if quick else 8))
     ctx.validated += nev - len(rejects)
     ctx.evaluations += nev
